@@ -394,6 +394,19 @@ fn run_meta<T: FromMeta + Observe>(entry: &MetaEntry, meta: &syn::Meta) -> Resul
     }
 }
 
+#[derive(FromMeta)]
+pub struct S12 {
+    v: PV<1201>,
+    ov: Option<PV<1202>>,
+    e: PE<1203>,
+    #[darling(multiple)]
+    me: Vec<PE<1204>>,
+    sv: Option<SpannedValue<PV<1205>>>,
+    bv: Option<Box<PE<1206>>>,
+    ovr: Option<Override<PV<1207>>>,
+}
+observe_struct!(S12 { v, ov, e, me, sv, bv, ovr });
+
 // built-in and library conversions (judged for totality only)
 #[derive(FromMeta)]
 pub struct L1 {
@@ -496,7 +509,7 @@ pub fn run_meta_receiver(name: &str, entry: &MetaEntry, meta: &syn::Meta) -> Opt
         name,
         entry,
         meta,
-        [S1, S2, S3, S4, S5, S6, S7, S8, S9, S10, S11, N1, N2, Rec, F1, F2, F3, F4, U1, NT1, NT2, W1, E1, E2, E3, EH, WR, MP, L1, L2, L3, RHS, RBS, RHI, RBI, RHP, RHN, RBN, RHH, RBH, RHB, RBB, RHU, RBU]
+        [S1, S2, S3, S4, S5, S6, S7, S8, S9, S10, S11, S12, N1, N2, Rec, F1, F2, F3, F4, U1, NT1, NT2, W1, E1, E2, E3, EH, WR, MP, L1, L2, L3, RHS, RBS, RHI, RBI, RHP, RHN, RBN, RHH, RBH, RHB, RBB, RHU, RBU]
     )
 }
 
